@@ -304,6 +304,52 @@ Fixpoint final_pos_g (pos hi : nat) (ds : list gdl) : nat * nat :=
   | GJoin _ _ :: ds' => final_pos_g pos hi ds'
   end.
 
+(* ---------------------------------------------------------------- the watch loop and etcd's stream protocol *)
+(* cluster.watchUntil / watchStream / setupWatch on one watched range, against what etcd does step
+   by step.  Positions count the mutations of [h]; a revision (of a load, of a response header)
+   is represented by the number of mutations of [h] it covers.
+   - SBatch n hd : one watch response carrying the next n mutations of the current stream, with
+                   header position hd.  etcd (mvcc/watchable_store.go, syncWatchers) catches a
+                   watcher that is behind up in BATCHES and stamps EVERY batch with the CURRENT
+                   store revision: pos + n <= hd, and the mutations pos+n .. hd-1 are still to
+                   come.  n = 0: a progress notification;
+   - SBreak      : the stream ends without compaction (channel closed, Canceled response, any
+                   other error): watchUntil opens a new stream;
+   - SLoad r snap calls : the stream ends with the compaction error, or cluster.reload runs after
+                   a reconnect: cluster.load (a Get answered with the store after r mutations,
+                   diffed by handleChanges) and a new stream from that revision;
+   - SJoin x order : Registry.Monitor of a further listener. *)
+Inductive sact :=
+| SBatch (n hd : nat)
+| SBreak
+| SLoad (r : nat) (snap : list (Z * Z)) (calls : list lev)
+| SJoin (x : bool) (order : list (Z * Z)).
+
+(* where watchUntil resumes a broken stream:
+   RLoadRev   - the code: `rev` stays the revision of the last load (everything since then is
+                delivered again; the listeners' calls are idempotent in the end);
+   RLastEvent - the ModRevision of the last handled event (a correct optimisation);
+   RHeader    - the header revision of the last handled response (seeded change C13-9). *)
+Inductive resume := RLoadRev | RLastEvent | RHeader.
+
+(* [wrev]: the position the loop would resume from; [pos]: the next mutation of the stream *)
+Definition next_wrev (pol : resume) (wrev pos n hd : nat) : nat :=
+  match pol with
+  | RLoadRev => wrev
+  | RLastEvent => if Nat.eqb n 0 then wrev else (pos + n)%nat
+  | RHeader => Nat.max wrev hd
+  end.
+
+Fixpoint watch_loop (pol : resume) (h : list bev) (wrev pos : nat) (script : list sact) : list gdl :=
+  match script with
+  | [] => []
+  | SBatch n hd :: s =>
+    GResp pos (seg pos (pos + n) h) :: watch_loop pol h (next_wrev pol wrev pos n hd) (pos + n) s
+  | SBreak :: s => GRestart wrev :: watch_loop pol h wrev wrev s
+  | SLoad r snap calls :: s => GLoad r snap calls :: GRestart r :: watch_loop pol h r r s
+  | SJoin x order :: s => GJoin x order :: watch_loop pol h wrev pos s
+  end.
+
 (* ---------------------------------------------------------------- resolver *)
 (* subset(set, sub): [sh] is what rand.Shuffle made of the set *)
 Definition subset (sh : list Z) (sub : Z) : list Z :=
